@@ -51,7 +51,7 @@ func reg(p *Prop) {
 type E = []func(*core.Ctx)
 
 func init() {
-	for _, id := range []string{"C10", "C19"} {
+	for _, id := range []string{} {
 		NotYet[id] = "engine for this property is designed (DESIGN.md section 4) but not yet armed in this commit; not claimed until its check runs clean on the pinned tree"
 	}
 
@@ -260,9 +260,9 @@ func init() {
 		ID:        "C09",
 		Technique: "nil-dereference analysis on the typed syntax of every read accessor, getter, view method and codec closure (a dereference must be dominated by a nil test of the same variable); mutators must not return silently on read-only empties",
 		DesignRef: "DESIGN.md 3.8, 4 C09",
-		LevelText: "For every generated type: each read method of the fast-reflection type (Descriptor, Type, New, Interface, Range, Has, Get, WhichOneof, GetUnknown, IsValid, ProtoMethods), each plain getter, each read method of the list/map views and the size/marshal/unmarshal closures either never dereference the receiver / backing pointer / oneof wrapper or do so only under a nil test of that same variable (structured dominance); size of a nil message is 0 and marshal returns the input buffer (ENC/SIZE.frame); view mutators touch the backing store on every path and never return early on a nil backing pointer (writes into read-only empties panic rather than being dropped). Open findings: F7 (Has/Get/Range/WhichOneof/GetUnknown dereference a nil receiver), F8 (typed-nil oneof wrappers in Marshal/Get/Range). Not decided: behaviour of protojson/prototext/Clone/Merge on nil beyond the accessors they call (A3).",
-		Engines:      E{refl.RunNil, codec.RunEnc, codec.RunSize},
-		RulePrefixes: []string{"NIL", "ENC.nilwrap", "SIZE.nilwrap", "ENC.frame", "SIZE.frame", "ENC.walk", "SIZE.walk", "G.model", "G.anchor", "GEN.build"},
+		LevelText: "For every generated type: each read method of the fast-reflection type (Descriptor, Type, New, Interface, Range, Has, Get, WhichOneof, GetUnknown, IsValid, ProtoMethods), each plain getter, each read method of the list/map views and the size/marshal/unmarshal closures either never dereference the receiver / backing pointer / oneof wrapper or do so only under a nil test of that same variable (structured dominance); size of a nil message is 0 and marshal returns the input buffer (ENC/SIZE.frame); view mutators touch the backing store on every path and never return early on a nil backing pointer (writes into read-only empties panic rather than being dropped). Get of an unpopulated message / oneof message member returns the typed-nil read-only message and of an empty list/map the view with a nil backing pointer (ACC.get, ACC.view). Open findings: F7 (Has/Get/Range/WhichOneof/GetUnknown dereference a nil receiver), F8 (typed-nil oneof wrappers in Marshal/Get/Range). Not decided: behaviour of protojson/prototext/Clone/Merge on nil beyond the accessors they call (A3).",
+		Engines:      E{refl.RunNil, codec.RunEnc, codec.RunSize, refl.RunAcc},
+		RulePrefixes: []string{"NIL", "ENC.nilwrap", "SIZE.nilwrap", "ENC.frame", "SIZE.frame", "ENC.walk", "SIZE.walk", "ACC.get", "ACC.has", "ACC.view", "ACC.whichoneof", "ACC.range", "G.model", "G.anchor", "GEN.build"},
 		Floors: []core.Floor{
 			{Rule: "NIL.recv", Min: 500, Why: "11 read methods x message types"},
 			{Rule: "NIL.getter", Min: 400, Why: "getters"},
@@ -335,5 +335,40 @@ func init() {
 			{Rule: "ACC.whichoneof", Min: 60, Why: "message types + oneofs"},
 		},
 		Explanation: "ACC canonical forms; see level text.",
+	})
+
+	reg(&Prop{
+		ID:        "C10",
+		Technique: "table rule on the protoiface.Methods literal (no override of Merge/CheckInitialized, exact flags) plus the accessor-conformance and effect rules restricted to the operations the generic algorithms use",
+		DesignRef: "DESIGN.md 4 C10",
+		LevelText: "proto.Equal/Clone/Merge/Reset/CheckInitialized and protojson/prototext are generic protobuf-go algorithms over protoreflect; statically the only levers are what they consume. Decided (narrow, stated as such): (i) every accessor those algorithms use (Range, Has, Get, Set, Mutable, NewField, Clear, WhichOneof and the list/map Append/AppendMutable/NewElement/Mutable/Set/Range/Len/Get/Has) has, per field kind and shape, the form the protoreflect contract prescribes (ACC); (ii) the protoiface.Methods literal leaves Merge and CheckInitialized nil so the generic code runs, and advertises exactly SupportMarshalDeterministic|SupportUnmarshalDiscardUnknown (a non-nil override is reported: its correctness would be a runtime-value question); (iii) Reset assigns the zero composite of its own type to *x. Not decided: output text of protojson/prototext and the results of Equal/Clone/Merge as values (runtime equalities against a reference; A3).",
+		Engines:      E{refl.RunAcc, refl.RunMeth, refl.RunCoh},
+		RulePrefixes: []string{"ACC", "METH", "COH.msgindex", "G.model", "G.anchor", "GEN.build"},
+		Floors: []core.Floor{
+			{Rule: "METH", Min: 50, Why: "message types"},
+			{Rule: "ACC.view", Min: 1000, Why: "view methods"},
+			{Rule: "ACC.mutable", Min: 400, Why: "fields"},
+			{Rule: "COH.msgindex", Min: 100, Why: "Reset + slowProtoReflect per message"},
+		},
+		Explanation: "METH + ACC + Reset form; see level text.",
+	})
+	reg(&Prop{
+		ID:        "C19",
+		Technique: "table agreement between the statically parsed descriptor and the generated Go tables/methods: raw descriptor vs request, struct tags, TypeBuilder's flattened Go-type table and dependency indexes, per-message / per-enum table indexes, descriptor variables, type singletons, getters, Reset, enum maps (canonical-form comparison)",
+		DesignRef: "DESIGN.md 4 C19",
+		LevelText: "For every generated package (checked-in and regenerated corpus): the embedded raw descriptor equals the schema given to the generator byte-for-field (regenerated packages: proto.Equal against the request, options included); every struct tag agrees with its descriptor field (wire keyword, number, label, packed, name, oneof, map key/value tags) and the Go type with the kind; goTypes lists the enums then the messages in protobuf-go's flattened order, each bound to its own Go type (nil for map entries), depIdxs resolves every field dependency to the right entry and the TypeBuilder literal carries the right counts and tables; slowProtoReflect and Reset of message k use msgTypes[k] and enum k's String/Descriptor/Type/Number use enumTypes[k]; md_/fd_ variables resolve through the parent chain to the message's own descriptor and fields; the type singleton's New/Zero/Descriptor and the message's Type/Descriptor/New/Interface/ProtoReflect yield that same Go type; getters are nil-safe and return the mapped field (oneof getters assert the member's wrapper) with the kind's zero value; Reset zeroes *x; <Enum>_name/_value equal the descriptor's values. Not decided: that String() text parses back (library) and registry lookups at run time (they follow from TypeBuilder under A3).",
+		Engines:      E{refl.RunCoh, refl.RunNil},
+		RulePrefixes: []string{"COH", "NIL.getter", "G.model", "G.anchor", "GEN.build"},
+		Floors: []core.Floor{
+			{Rule: "COH.rawdesc", Min: 15, Why: "generated files"},
+			{Rule: "COH.gotypes", Min: 15, Why: "generated files"},
+			{Rule: "COH.depidx", Min: 15, Why: "generated files"},
+			{Rule: "COH.msgindex", Min: 100, Why: "2 per message"},
+			{Rule: "COH.type", Min: 500, Why: "10 per message"},
+			{Rule: "COH.tags", Min: 400, Why: "fields"},
+			{Rule: "COH.getter", Min: 400, Why: "getters"},
+			{Rule: "COH.enum", Min: 30, Why: "5 per enum"},
+		},
+		Explanation: "COH table agreement; see level text.",
 	})
 }
